@@ -85,9 +85,10 @@ def properties_of_failure(rec, jf):
             if c["torn"]: ps.add("C05")
         elif k == "read_all":
             ps.add("C01" if op.split()[1:] == ["u", "u"] else "C02")
+            if not (c["torn"] or c["index_fault"] or c["cache_fault"] or c["corrupt"]):
+                ps.add("C07")     # a file laid out as documented (here: written by the library) is not read back with the same content
             if c["reopened"] and not c["torn"]: ps.add("C04")
             if c["torn"]: ps.add("C05")
-            if c["format"] or c["asset"]: ps.add("C07")
             if c["corrupt"]: ps.add("C18")
             if c["index_fault"]: ps.add("C06")
         elif k == "read_first_n":
